@@ -53,6 +53,8 @@ USER_FUNCS = [
      'one', ('tup', 0, [('0', ('s', 'std::int64'))]), 'x'),
     ('default::f_ntup', [('x', 'pos', 'one', ('tup', 1, [('a', ('s', 'std::int64')), ('b', ('s', 'std::str'))]), None)],
      'one', ('tup', 1, [('a', ('s', 'std::int64')), ('b', ('s', 'std::str'))]), 'x'),
+    ('default::f_lohi', [('x', 'pos', 'one', ('tup', 1, [('lo', ('s', 'std::float64')), ('hi', ('s', 'std::int64'))]), None)],
+     'one', ('tup', 1, [('lo', ('s', 'std::float64')), ('hi', ('s', 'std::int64'))]), 'x'),
     ('default::f_myint', [('x', 'pos', 'one', ('s', 'default::myint'), None)], 'one', ('s', 'default::myint'), 'x'),
     ('default::f_over', [('x', 'pos', 'one', ('s', 'std::int64'), None)], 'one', ('s', 'std::int64'), 'x'),
     ('default::f_over', [('x', 'pos', 'one', ('s', 'std::float64'), None)], 'one', ('s', 'std::float64'), 'x'),
@@ -71,7 +73,7 @@ USER_FUNCS = [
     ('default::f_rng', [('x', 'pos', 'one', ('rng', ('s', 'std::int64')), None)], 'one', ('s', 'std::bool'), 'true'),
     ('default::f_mrng', [('x', 'pos', 'one', ('mrng', ('s', 'std::int64')), None)], 'one', ('s', 'std::bool'), 'true'),
 ]
-USER_NAMES = ['a', 'b', 'c', 'x', 'y', 'xs', 'lo', 'hi'] + sorted(
+USER_NAMES = ['a', 'b', 'c', 'x', 'y', 'xs', 'lo', 'hi', 'mid', 'p'] + sorted(
     {p[0] for _, _, _, ps in USER_OBJTYPES for p in ps} | {p[0] for p in STD_PTRS})
 
 
@@ -476,6 +478,79 @@ def stream_paths(g: G, univ):
         yield ('path-union', g.ptr(g.set(g.obj('default::User'), g.obj('default::Card')), p))
         yield ('path-union', g.ptr(g.op('std::??', g.obj('default::Bot'), g.obj('default::User')), p))
         yield ('path-union', g.ptr(g.op('std::IF', g.obj('default::User'), g.lit('std::bool'), g.obj('default::User')), p))
+
+
+def named_tuple_variants(g: G):
+    """named tuples over the fields lo / hi (and overlapping / unnamed / nested variants) whose element
+    types need implicit casts in OPPOSITE directions per field (int64 vs float64 swapped):
+    Tuple.find_common_implicitly_castable_type keeps the names only when both operands carry the same
+    names IN THE SAME ORDER"""
+    i, f, s_ = g.atom('std::int64'), g.atom('std::float64'), g.atom('std::str')
+    i16, f32 = g.atom('std::int16'), g.atom('std::float32')
+    base = [
+        ('lo:i,hi:f', g.ntup(('lo', i), ('hi', f))), ('lo:f,hi:i', g.ntup(('lo', f), ('hi', i))),   # (a) same names, same order
+        ('lo:i,hi:i', g.ntup(('lo', i), ('hi', i))),
+        ('hi:f,lo:i', g.ntup(('hi', f), ('lo', i))), ('hi:i,lo:f', g.ntup(('hi', i), ('lo', f))),   # (b) permuted
+        ('hi:i,lo:i', g.ntup(('hi', i), ('lo', i))),
+        ('lo:f,mid:i', g.ntup(('lo', f), ('mid', i))), ('x:i,hi:f', g.ntup(('x', i), ('hi', f))),   # (c) overlapping
+        ('lo:i16,hi:f32', g.ntup(('lo', i16), ('hi', f32))),
+        ('(f,i)', g.tup(f, i)), ('(i,f)', g.tup(i, f)),                                              # (d) unnamed
+        ('lo:i', g.ntup(('lo', i))), ('lo:i,hi:f,mid:s', g.ntup(('lo', i), ('hi', f), ('mid', s_))),  # other arities
+    ]
+    nested = []
+    for tag, e in base[:6]:                                                                          # (e) nested
+        nested.append((f'[{tag}]', g.arr(e)))
+        nested.append((f'({tag},i)', g.tup(e, i)))
+        nested.append((f'(p:{tag})', g.ntup(('p', e))))
+    return base, nested
+
+
+def stream_named_tuples(g: G):
+    base, nested = named_tuple_variants(g)
+    b = g.lit('std::bool')
+    for univ in (base, nested):
+        for (_, x), (_, y) in itertools.product(univ, univ):
+            yield ('nt-setlit', g.set(x, y))
+            yield ('nt-union', g.op('std::UNION', x, y))
+            yield ('nt-coalesce', g.op('std::??', x, y))
+            yield ('nt-ifelse', g.op('std::IF', x, b, y))
+            yield ('nt-arraylit', g.arr(x, y))
+            yield ('nt-eq', g.op('std::=', x, y))
+            yield ('nt-in', g.op('std::IN', x, g.set(y, y)))
+            yield ('nt-func', g.call('std::array_agg', [g.set(x, y)]))
+            yield ('nt-func', g.call('std::contains', [g.arr(x), y]))
+            yield ('nt-func', g.call('std::array_get', [g.arr(x, y), g.atom('std::int64')]))
+            yield ('nt-func', g.call('std::min', [g.set(x, y)]))
+    for _, x in base + nested:
+        yield ('nt-userfunc', g.call('default::f_lohi', [x]))
+        yield ('nt-userfunc', g.call('default::f_ntup', [x]))
+        yield ('nt-func', g.call('std::assert_single', [x]))
+        yield ('nt-tidx', f'(tidx {x} {g.ids.name["lo"]})')
+        yield ('nt-tidx', f'(tidx {x} {g.ids.name["hi"]})')
+        yield ('nt-tidx', f'(tidx {x} 1)')
+    # three operands: the names survive only if all three agree
+    for (_, x), (_, y), (_, z) in itertools.product(base[:6], repeat=3):
+        yield ('nt-set3', g.set(x, y, z))
+
+
+def named_tuple_type_terms(g: G):
+    """type terms for the type-algebra probes (find_common, cast distance, issubclass, ...)"""
+    ids, S = g.ids, g.S
+    n = ids.name
+    I, F, I16, STR = S('std::int64'), S('std::float64'), S('std::int16'), S('std::str')
+    base = [
+        f'(tup 1 ({n["lo"]} {I}) ({n["hi"]} {F}))', f'(tup 1 ({n["lo"]} {F}) ({n["hi"]} {I}))',
+        f'(tup 1 ({n["hi"]} {F}) ({n["lo"]} {I}))', f'(tup 1 ({n["hi"]} {I}) ({n["lo"]} {F}))',
+        f'(tup 1 ({n["lo"]} {I}) ({n["hi"]} {I}))', f'(tup 1 ({n["hi"]} {I}) ({n["lo"]} {I}))',
+        f'(tup 1 ({n["lo"]} {F}) ({n["mid"]} {I}))', f'(tup 1 ({n["x"]} {I}) ({n["hi"]} {F}))',
+        f'(tup 1 ({n["lo"]} {I16}) ({n["hi"]} {F}))',
+        f'(tup 0 (0 {F}) (1 {I}))', f'(tup 0 (0 {I}) (1 {F}))', f'(tup 1 ({n["lo"]} {I}))',
+        f'(tup 1 ({n["lo"]} {I}) ({n["hi"]} {F}) ({n["mid"]} {STR}))',
+    ]
+    nested = []
+    for t in base[:6]:
+        nested += [f'(arr {t})', f'(tup 0 (0 {t}) (1 {I}))', f'(tup 1 ({n["p"]} {t}))']
+    return base + nested
 
 
 def stream_casts(g: G, univ):
